@@ -254,8 +254,8 @@ def check_output(out, row_inst, row_vals, electric, zone, key0):
     def V(clause, detail, **k):
         if clause == "index":  # one root cause whatever the deviation: key on the zone class and the kind of error only
             key = {"zone_class": key0.get("zone_class"), **k}
-        else:
-            key = dict(key0, **k)
+        else:  # the column is named in the detail, not in the key (one root cause usually hits every column)
+            key = dict(key0, **{a: b for a, b in k.items() if a != "col"})
         viol.append({"clause": clause, "key": key, "detail": detail})
 
     lo, hi, n, ref = reference(row_inst, row_vals, electric, zone)
